@@ -618,6 +618,42 @@ def run(ck: Check):
                              dict(what="a value that is not one of the admissible members is accepted" + ("; the detector then raises on in-domain input" if err is not None else ""), then=repr(err), **detail))
             elif resx not in OKERR:
                 ck.violation(dict(clause="error-type", cls=spec.name, error=resx, param="average_run_length"), dict(what="rejected with an exception that is neither ValueError/TypeError nor the dedicated error", **detail))
+    # every NUMERIC parameter of every validated constructor, (a) given as a numeric STRING / bytes ("50", b"50", "1e-3": wrong
+    # types, to be rejected), (b) given its default value carried by a NumPy scalar of another type (float32 / float16 for
+    # floats, int64 / uint8 for ints): either rejected, or accepted AND operable (deterministic, own generator)
+    for spec in specs():
+        for k, dv in spec.defaults.items():
+            if isinstance(dv, bool) or not isinstance(dv, (int, float)):
+                continue
+            for v in ("50", b"50", "1e-3", "0.5"):
+                pr = dict(spec.defaults, **{k: v})
+                resx, obj = outcome(spec, pr)
+                ck.case(dict(cls=spec.name, param=k, value=repr(v), outcome=resx, kind="numeric-string"), nontrivial=resx != "ok", key=repr(("numstr", spec.name, k, repr(v))))
+                ck.count("numeric_string_cases")
+                if resx == "ok":
+                    ck.violation(dict(clause="accepts-outside-domain", cls=spec.name, param=k, value="numeric-string"), dict(what="a string / bytes spelling of a number is accepted for a numeric parameter", cls=spec.name, param=k, value=repr(v)))
+                elif resx not in OKERR:
+                    ck.violation(dict(clause="error-type", cls=spec.name, error=resx, param=k, value="numeric-string"), dict(what="rejected with an exception that is neither ValueError/TypeError nor the dedicated error", cls=spec.name, param=k, value=repr(v), outcome=resx))
+            carriers = (np.float32, np.float16) if isinstance(dv, float) else (np.int64, np.uint8)
+            for dt in carriers:
+                try:
+                    tv = dt(dv)
+                except Exception:  # noqa: BLE001
+                    continue
+                if float(tv) != float(dv) and not isinstance(dv, float):
+                    continue
+                pr = dict(spec.defaults, **{k: tv})
+                resx, obj = outcome(spec, pr)
+                ck.case(dict(cls=spec.name, param=k, value=repr(tv), carrier=dt.__name__, outcome=resx, kind="numpy-carrier"), nontrivial=True, key=repr(("carrier", spec.name, k, dt.__name__)))
+                ck.count("numpy_carrier_cases")
+                if resx == "ok":
+                    err, where = operate(spec, pr, obj, xrng)
+                    if err is not None and isinstance(where, dict) and "construction" in str(where.get("what", "")) and type(err).__name__ in OKERR:
+                        ck.count("numpy_carrier_rejected_by_the_detector_constructor")   # a constructor rejecting with TypeError / ValueError is a rejection
+                    elif err is not None:
+                        ck.violation(dict(clause="operable", cls=spec.name, error=type(err).__name__, param=k, carrier=dt.__name__), dict(what="a parameter value carried by a NumPy scalar is accepted, but the object then raises on in-domain input", cls=spec.name, param=k, value=repr(tv), error=repr(err), where=where))
+                elif resx not in OKERR:
+                    ck.violation(dict(clause="error-type", cls=spec.name, error=resx, param=k, carrier=dt.__name__), dict(what="rejected with an exception that is neither ValueError/TypeError nor the dedicated error", cls=spec.name, param=k, value=repr(tv), outcome=resx))
     # the detector constructors' own `config` parameter: documented as an instance of the detector's configuration class
     # (or None); anything else - a string, a dict, a number, the configuration CLASS, another detector's configuration -
     # is outside that domain and has to be rejected (deterministic)
